@@ -108,6 +108,20 @@ theorem good1_failHere {α : Type} : Good1 (failHere : P α) := ⟨fun s => by
   cases h : s.src <;> simp [StateT.run, bind, StateT.bind, get, getThe, MonadStateOf.get, StateT.get,
     pure, StateT.pure, Except.bind, Except.pure, throw, throwThe, MonadExceptOf.throw, StateT.lift, h]⟩
 
+theorem failHere_error {α : Type} (s : PState) : ∃ l, (failHere : P α).run s = .error (.at l) := by
+  unfold failHere curLine
+  cases h : s.src <;> simp [StateT.run, bind, StateT.bind, get, getThe, MonadStateOf.get,
+    StateT.get, pure, StateT.pure, Except.bind, Except.pure, throw, throwThe,
+    MonadExceptOf.throw, StateT.lift, h]
+
+/-- Whatever follows a `failHere` is never run. -/
+theorem ok_failHere_bind {α β : Type} (f : α → P β) (s : PState) : OK ((failHere : P α) >>= f) s := by
+  apply ok_bind (good1_failHere.good.ok s)
+  intro a s' hrun
+  obtain ⟨l, hl⟩ := failHere_error (α := α) s
+  rw [hl] at hrun
+  cases hrun
+
 theorem good1_throw_at {α : Type} (l : Nat) : Good1 (throw (.at l) : P α) := ⟨fun s => by
   simp [OK1, StateT.run, throw, throwThe, MonadExceptOf.throw, StateT.lift, bind, Except.bind]⟩
 
@@ -458,13 +472,22 @@ theorem ok_assocLoop (pOp : P Node) (hop : Good pOp) (x : Nat) (hx : x ≠ 0) :
 
 /-- The postfix loop of `parseOperand`: every iteration consumes `(`/`!`/`?`, `[` or `.`. -/
 theorem ok_operandLoop (env : Env) (pe : P Node) (hpe : Good pe) :
-    ∀ fuel first lhs s, s.src.length < fuel → OK (operandLoop env pe fuel first lhs) s := by
+    ∀ fuel cnt first lhs s, s.src.length < fuel →
+      OK (operandLoop env pe fuel cnt first lhs) s := by
   intro fuel
   induction fuel with
-  | zero => intro first lhs s h; omega
+  | zero => intro cnt first lhs s h; omega
   | succ fuel ih =>
-    intro first lhs s hfuel
+    intro cnt first lhs s0 hfuel0
     unfold operandLoop
+    dsimp only
+    split
+    · exact ok_failHere_bind _ _
+    rename_i hcnt
+    have hfuel := hfuel0
+    revert hfuel
+    generalize s0 = s
+    intro hfuel
     apply ok_bind (good_peek1.ok s)
     intro x s1 hrun1
     obtain ⟨hs1, hne⟩ := run_peek1_eq hrun1
@@ -576,7 +599,7 @@ theorem good_operandAll (env : Env) (pe : P Node) (hpe : Good pe) (lhs : Node) :
   simp at hrun
   obtain ⟨hn, hs⟩ := hrun
   subst hn; subst hs
-  exact ok_operandLoop env pe hpe _ _ _ _ (by omega)⟩
+  exact ok_operandLoop env pe hpe _ _ _ _ _ (by omega)⟩
 
 theorem good_blockAll (pStmt : P Node) (hst : Good pStmt) (dc : Bool) :
     Good (blockAll pStmt dc) := ⟨fun s => by
